@@ -1,6 +1,6 @@
 #!/bin/bash
 # usage: tools/seedmatrix.sh <seeds root> — runs every property's check on every seed; prints which checks fire
-ROOT="${1:-/verif/seeded}"
+ROOT="$(realpath "${1:-/verif/seeded}")"
 export GOFLAGS=-mod=mod GOPROXY=off GOSUMDB=off GOTOOLCHAIN=local GOWORK=off
 for sd in $(ls -d $ROOT/C*-[0-9]* $ROOT/C*/[0-9]* 2>/dev/null | sort); do
   D=$(mktemp -d /tmp/seedrun.XXXXXX)
